@@ -18,7 +18,8 @@ def gen_cases(ctx, wmax, hmax, quants):
             mode = "v0" if (w + h) % 2 else "v1"
             b, d = picgen.gen_picture(rng, mode, "I", w, h, quant=q, sparse=2, stuffing_p=0, extra=[])
             # keep the picture quantizer in force: no DQUANT
-            cases.append((idx, 1, [D(b.to_bytes()), "X"], (w, h, q)))
+            pre = [D(x) for x in picgen.history_prefix(rng, mode, w, h)] if idx % 4 == 2 else []
+            cases.append((idx, 1, pre + [D(b.to_bytes()), "X"], (w, h, q)))
             idx += 1
     # standard mode custom sizes (multiples of 4) and a predicted picture
     for w in range(4, wmax + 1, 4):
